@@ -475,3 +475,16 @@ mod tests {
         assert_eq!(stats.avg_seek_distance, 0.0);
     }
 }
+
+/// Verification access shims (compiled only by the Kani model checker).
+#[cfg(kani)]
+pub mod verif_access {
+    /// Calls the private `offtin`.
+    pub fn offtin(buf: [u8; 8]) -> i64 {
+        super::offtin(buf)
+    }
+    /// Calls the private `offtout`.
+    pub fn offtout(value: i64) -> [u8; 8] {
+        super::offtout(value)
+    }
+}
